@@ -1,7 +1,7 @@
 (* C17 property theorems: ONLY statements closed by `exact`, each followed by Print Assumptions. *)
 From Coq Require Import ZArith Reals List Bool.
 From Flocq Require Import Core BinarySingleNaN.
-From DuneV Require Import C17_Model C17_Spec C17_Spec_Round C17_Proofs C17_Proofs_Cmp C17_Proofs_Int C17_Proofs_BinFix C17_Proofs_Round C17_Defaults C17_Proofs_Api.
+From DuneV Require Import C17_Model C17_Spec C17_Spec_Round C17_Proofs C17_Proofs_Cmp C17_Proofs_Int C17_Proofs_BinFix C17_Proofs_Round C17_Defaults C17_Proofs_Api C17_Proofs_Real.
 Import ListNotations.
 
 (* ---- comparison algebra: every IEEE binary format (prec, emax), every style, all finite a b, every finite eps >= 0;
@@ -61,8 +61,7 @@ Proof. exact C17_veq_conj_lemma. Qed.
 Print Assumptions C17_veq_conjunction.
 
 (* documented definition, real-number reading, absolute style: eq <-> |round(a-b)| <= eps (a-b not overflowing).
-   PARTIAL: the relative styles' reading  |round(a-b)| <= round(eps * max|min(|a|,|b|))  is not restated here
-   (it needs the same two lemmas plus Bmult_correct; the algebra above does not depend on it). *)
+   Kept for reference; superseded by C17_eq_real below, which gives the reading for all three styles with both roundings explicit. *)
 Theorem C17_eq_absolute_real_partial :
   forall (prec emax : Z) (Hp : Prec_gt_0 prec) (Hm : Prec_lt_emax prec emax) (eps a b : binary_float prec emax),
   is_finite a = true -> is_finite b = true -> is_finite eps = true ->
@@ -82,7 +81,8 @@ Theorem C17_factorial :
 Proof. exact C17_factorial_lemma. Qed.
 Print Assumptions C17_factorial.
 
-(* power, p >= 0: exact whenever every partial product m^1 .. m^p is representable *)
+(* power for an integral Base, p >= 0: exact whenever every partial product m^1 .. m^p is representable
+   (p < 0: C17_ipower_negative below -- the integer quotient 1/m^|p| is not m^p; floating Base: C17_fpower_real / C17_fpower_exact) *)
 Theorem C17_power :
   forall (t : c17_ity) (m p : Z),
   0 <= p -> (forall i, 1 <= i <= p -> c17_inrange t (m ^ i) = true) ->
@@ -291,4 +291,91 @@ Theorem C17_cmp_algebra_default_eps :
        (c17_ge 53 1024 c17_Hprec64 c17_Hmax64 s e a b) (c17_le 53 1024 c17_Hprec64 c17_Hmax64 s e a b) = true).
 Proof. exact C17_cmp_algebra_default_eps_lemma. Qed.
 Print Assumptions C17_cmp_algebra_default_eps.
+
+(* ---- C17_eq_real: the documented definitions, real-number reading with BOTH roundings explicit, all three styles, every format:
+        eq  <->  | round(a - b) |  <=  round(eps * max(|a|,|b|))   (weak;  min for strong;  <= eps for absolute)
+        for finite a b eps, when neither a - b nor eps * max|min overflows ---- *)
+Theorem C17_eq_real :
+  forall (prec emax : Z) (Hp : Prec_gt_0 prec) (Hm : Prec_lt_emax prec emax) (s : c17_cstyle) (eps a b : binary_float prec emax),
+  let rhs := match s with
+             | C17_RelWeak => round radix2 (SpecFloat.fexp prec emax) ZnearestE (B2R eps * Rmax (Rabs (B2R a)) (Rabs (B2R b)))%R
+             | C17_RelStrong => round radix2 (SpecFloat.fexp prec emax) ZnearestE (B2R eps * Rmin (Rabs (B2R a)) (Rabs (B2R b)))%R
+             | C17_Absolute => B2R eps
+             end in
+  is_finite a = true -> is_finite b = true -> is_finite eps = true ->
+  (Rabs (round radix2 (SpecFloat.fexp prec emax) ZnearestE (B2R a - B2R b)) < bpow radix2 emax)%R -> (Rabs rhs < bpow radix2 emax)%R ->
+  (c17_eq prec emax Hp Hm s eps a b = true <-> (Rabs (round radix2 (SpecFloat.fexp prec emax) ZnearestE (B2R a - B2R b)) <= rhs)%R).
+Proof. exact C17_eq_real_spelled_lemma. Qed.
+Print Assumptions C17_eq_real.
+
+(* ---- long double: the x87 extended format is (prec, emax) = (64, 16384); the format-generic theorems at that instance ---- *)
+Theorem C17_cmp_algebra_x87 :
+  forall (s : c17_cstyle) (eps a b : binary_float 64 16384),
+  is_finite a = true -> is_finite b = true -> is_finite eps = true -> (0 <= B2R eps)%R ->
+  c17_eq 64 16384 c17_Hprec80 c17_Hmax80 s eps a b = c17_eq 64 16384 c17_Hprec80 c17_Hmax80 s eps b a /\
+  c17_eq 64 16384 c17_Hprec80 c17_Hmax80 s eps a a = true /\
+  c17_cmp_laws (c17_flt 64 16384 a b) (c17_fgt 64 16384 a b)
+    (c17_eq 64 16384 c17_Hprec80 c17_Hmax80 s eps a b) (c17_ne 64 16384 c17_Hprec80 c17_Hmax80 s eps a b)
+    (c17_gt 64 16384 c17_Hprec80 c17_Hmax80 s eps a b) (c17_lt 64 16384 c17_Hprec80 c17_Hmax80 s eps a b)
+    (c17_ge 64 16384 c17_Hprec80 c17_Hmax80 s eps a b) (c17_le 64 16384 c17_Hprec80 c17_Hmax80 s eps a b) = true.
+Proof. exact C17_cmp_algebra_x87_lemma. Qed.
+Print Assumptions C17_cmp_algebra_x87.
+
+Theorem C17_trunc_round_x87 :
+  forall (r : c17_rstyle) (t : c17_ity) (s : c17_cstyle) (eps val : binary_float 64 16384),
+  is_finite eps = true -> (0 <= B2R eps)%R -> is_finite val = true ->
+  (c17_inrange t (Zfloor (B2R val)) = true ->
+   (IZR (Zfloor (B2R val)) <> B2R val -> c17_inrange t (Zfloor (B2R val) + 1) = true) ->
+   exists z, c17_trunc_fix 64 16384 c17_Hprec80 c17_Hmax80 r t s eps val = C17_Val z /\
+             c17_trunc_post 64 16384 c17_Hprec80 c17_Hmax80 (c17_dir_down 64 16384 r val) t s eps val z) /\
+  (c17_inrange t (Ztrunc (B2R val)) = true ->
+   exists z, c17_round_fix 64 16384 c17_Hprec80 c17_Hmax80 r t s eps val = C17_Val z /\
+             c17_round_post 64 16384 c17_Hprec80 c17_Hmax80 (negb (c17_dir_down 64 16384 r val)) t s eps val z).
+Proof. exact (C17_trunc_round_lemma 64 16384 c17_Hprec80 c17_Hmax80). Qed.
+Print Assumptions C17_trunc_round_x87.
+
+Theorem C17_default_eps_x87 :
+  (forall s, is_finite (c17_deps80 s) = true /\ Bsign (c17_deps80 s) = false) /\
+  c17_to_bits 64 16384 79 (c17_deps80 C17_RelWeak) = 0x1fe18000000000000000%Z /\
+  c17_to_bits 64 16384 79 (c17_deps80 C17_RelStrong) = 0x1fe18000000000000000%Z /\
+  c17_to_bits 64 16384 79 (c17_deps80 C17_Absolute) = 0x1ff58637bd05af6c6800%Z.
+Proof. exact C17_default_eps_x87_lemma. Qed.
+Print Assumptions C17_default_eps_x87.
+
+(* ---- power for floating T, any sign of the exponent, every format:
+        p >= 0: the iterated product with one rounding per multiplication; p < 0: the correctly rounded reciprocal of it;
+        when every partial product m^1..m^|p| is representable: exactly m^p (p >= 0) / round(1/m^|p|) (p < 0) ---- *)
+Theorem C17_fpower_real :
+  forall (prec emax : Z) (Hp : Prec_gt_0 prec) (Hm : Prec_lt_emax prec emax) (m : binary_float prec emax) (p : Z),
+  is_finite m = true -> c17_rpow_ok prec emax (B2R m) (Z.abs_nat p) 1 ->
+  let r := c17_rpow prec emax (B2R m) (Z.abs_nat p) 1 in
+  ((0 <= p)%Z -> B2R (c17_fpower prec emax Hp Hm m p) = r /\ is_finite (c17_fpower prec emax Hp Hm m p) = true) /\
+  ((p < 0)%Z -> r <> 0%R -> (Rabs (round radix2 (SpecFloat.fexp prec emax) ZnearestE (1 / r)) < bpow radix2 emax)%R ->
+     B2R (c17_fpower prec emax Hp Hm m p) = round radix2 (SpecFloat.fexp prec emax) ZnearestE (1 / r) /\
+     is_finite (c17_fpower prec emax Hp Hm m p) = true).
+Proof. exact C17_fpower_real_lemma. Qed.
+Print Assumptions C17_fpower_real.
+
+Theorem C17_fpower_exact :
+  forall (prec emax : Z) (Hp : Prec_gt_0 prec) (Hm : Prec_lt_emax prec emax) (m : binary_float prec emax) (p : Z),
+  is_finite m = true ->
+  (forall i : nat, (0 < i <= Z.abs_nat p)%nat ->
+     generic_format radix2 (SpecFloat.fexp prec emax) (B2R m ^ i) /\ (Rabs (B2R m ^ i) < bpow radix2 emax)%R) ->
+  ((0 <= p)%Z -> B2R (c17_fpower prec emax Hp Hm m p) = (B2R m ^ Z.abs_nat p)%R) /\
+  ((p < 0)%Z -> (B2R m ^ Z.abs_nat p <> 0)%R ->
+     (Rabs (round radix2 (SpecFloat.fexp prec emax) ZnearestE (1 / B2R m ^ Z.abs_nat p)) < bpow radix2 emax)%R ->
+     B2R (c17_fpower prec emax Hp Hm m p) = round radix2 (SpecFloat.fexp prec emax) ZnearestE (1 / B2R m ^ Z.abs_nat p)).
+Proof. exact C17_fpower_exact_lemma. Qed.
+Print Assumptions C17_fpower_exact.
+
+(* ---- power for an integral Base and p < 0 (why C17_power claims m^p only for p >= 0): the result is the integer quotient
+        1 / m^|p| : undefined for m = 0, m^p for m = +-1, and 0 (not m^p) for |m| > 1 ---- *)
+Theorem C17_ipower_negative :
+  forall (t : c17_ity) (m p : Z),
+  (p < 0)%Z -> (- 2 ^ 31 < p)%Z ->
+  (forall i, (1 <= i <= - p)%Z -> c17_inrange t (m ^ i) = true) ->
+  c17_inrange t 0%Z = true -> c17_inrange t 1%Z = true ->
+  c17_ipower t m p = (if (m =? 0)%Z then C17_UB else if (Z.abs m =? 1)%Z then C17_Val (m ^ (- p))%Z else C17_Val 0%Z).
+Proof. exact C17_ipower_negative_lemma. Qed.
+Print Assumptions C17_ipower_negative.
 
